@@ -167,3 +167,26 @@ package master
 //@   loop 2 invariant all(d2, "string", (visited(replicasOnOnlineNode, d2) && d2 != db && has(state.ShardStates, d2)) ==> forall(i, 0, len(replicasOnOnlineNode[d2]), has(state.ShardStates[d2], replicasOnOnlineNode[d2][i]) && state.ShardStates[d2][replicasOnOnlineNode[d2][i]].State == models.OnlineShard))
 //@   loop 2 invariant forall(i, 0, rangeindex + 1, has(shardStates, shards[i]) && shardStates[shards[i]].State == models.OnlineShard)
 //@ end
+
+//@ # ---- the candidate nodes of a placement (C18: "every replica is on a node that is alive at creation time"): the list
+//@ # handed to the shard assignment is read from the repository by this very call - never answered from a list remembered
+//@ # from an earlier call (a same-size membership change would place shards on a dead node) - and every listed node is in
+//@ # it. Thin contract: decoding (encoding/json, reflection) is not under contract -------------------------------------
+//@ func github.com/lindb/lindb/pkg/state.Repository.List
+//@   norefine
+//@   note assumed: listing a prefix of the repository (etcd) reads; it has no effect on program state
+//@   modifies nothing
+//@ end
+//@ extern func encoding/json.Unmarshal
+//@   note assumed: decoding writes only the object it is given (here the node record being decoded)
+//@   params data v
+//@   modifies *cast(v, "*models.StatefulNode") when typeis(v, "*models.StatefulNode")
+//@ end
+//@ func storageCluster.GetLiveNodes
+//@   prop C18
+//@   focus the_live_nodes_are_read_from_the_repository_by_this_call every_listed_node_is_returned
+//@   modifies *
+//@   ensures[the_live_nodes_are_read_from_the_repository_by_this_call] err == nil ==> calls(c.repo.List) == old(calls(c.repo.List)) + 1
+//@   loop 1 invariant c.repo == old(c.repo)
+//@   loop 1 invariant[every_listed_node_is_returned] len(rs) == rangeindex + 1
+//@ end
